@@ -161,6 +161,72 @@ def inst_str(m, mdl):
     return str(m)
 
 
+# --------------------------------------------------------------------------- relational exploration
+
+class PairOut:
+    __slots__ = ('res', 'env', 'a', 'b', 'spec_a', 'spec_b', 'text_a', 'text_b', 'nat_a', 'nat_b')
+
+
+def _run_one(eng, dt, validate_first=True):
+    cell = Cell(dt)
+    try:
+        if validate_first:
+            r = eng.call_fn('validate::validate', [Ref(cell)])
+            if r.d != 0:
+                return ('err', list(r.p[1][0].msgs))
+        return ('ok', eng.call_fn('expand::data_type_impl', [dt]))
+    except Panic as ex:
+        return ('panic', (ex.msg, ex.site))
+
+
+def explore_pair(ctx, e, tabs, make_pair, max_paths=100000):
+    """make_pair() -> (specA, specB) sharing choice-variable names; both are expanded under one path condition"""
+    def run(eng):
+        env = Env(eng)
+        sa, sb = make_pair()
+        da = sa.value(env, tabs)
+        db = sb.value(env, tabs)
+        ra = _run_one(eng, da)
+        rb = _run_one(eng, db)
+        eng.aux['x'] = (env, sa, sb)
+        return (ra, rb)
+    res = e.explore(run, max_paths=max_paths)
+    ctx.absorb(e, res)
+    out = []
+    for r in res:
+        po = PairOut()
+        po.res = r
+        po.env, po.spec_a, po.spec_b = r.aux['x']
+        po.a, po.b = r.value
+        po.text_a = po.text_b = po.nat_a = po.nat_b = None
+        out.append(po)
+    return out
+
+
+def pair_native(ctx, pairs):
+    """render one witness per joint path and expand both sides with the real derive"""
+    todo = []
+    for po in pairs:
+        mdl = ctx.model_of(po.res.pc)
+        if mdl is None:
+            ctx.inconclusive.append('no model for a joint path'); continue
+        ev = Ev(po.env, mdl)
+        po.text_a, po.text_b = po.spec_a.text(ev), po.spec_b.text(ev)
+        todo.append(po)
+    rs = ctx.replay.run_many([p.text_a for p in todo] + [p.text_b for p in todo])
+    n = len(todo)
+    for i, po in enumerate(todo):
+        po.nat_a, po.nat_b = rs[i], rs[n + i]
+        for side, pred, nat, text in (('A', po.a, po.nat_a, po.text_a), ('B', po.b, po.nat_b, po.text_b)):
+            k, v = pred
+            good = (k == 'panic' and nat['status'] == 'panic') or (k == 'err' and nat['status'] == 'err') or \
+                   (k == 'ok' and nat['status'] == 'ok' and flat(v) == flat_text(nat['out']))
+            if good:
+                ctx.cov['traces_validated_against_impl'] += 1
+            else:
+                ctx.inconclusive.append('ENCODING-MISMATCH (pair %s): %s :: predicted %s native %s' % (side, text, k, nat['status']))
+
+
 # --------------------------------------------------------------------------- generic sweep driver
 
 _PER_PATH = {}
